@@ -38,6 +38,10 @@ var c03Arity = []int{1, 1, 1, 1}
 
 func c03Sym(i int) ast.PredicateSym { return ast.PredicateSym{Symbol: c03Names[i], Arity: c03Arity[i]} }
 
+// c03BuiltinFirst: when set, every rule body starts with e(V), :lt(V, 3), so that every mention of an IDB predicate comes
+// after a built-in atom.
+var c03BuiltinFirst bool
+
 // c03Label names predicate i in reports (with its arity when names are shared).
 func c03Label(i int) string {
 	if c03Arity[i] != 1 || c03Names[0] == c03Names[1] {
@@ -75,6 +79,9 @@ func c03Program(n int, g []int) analysis.Program {
 	for u := 0; u < n; u++ {
 		prog.IdbPredicates[c03Sym(u)] = struct{}{}
 		body := []ast.Term{ast.Atom{Predicate: e, Args: []ast.BaseTerm{v}}}
+		if c03BuiltinFirst {
+			body = append(body, ast.Atom{Predicate: ast.PredicateSym{Symbol: ":lt", Arity: 2}, Args: []ast.BaseTerm{v, ast.Number(3)}})
+		}
 		for w := 0; w < n; w++ {
 			at := ast.Atom{Predicate: c03Sym(w), Args: c03Args(w, v)}
 			switch g[u*n+w] {
@@ -346,8 +353,31 @@ func c03(r *rt.Run) {
 			}
 		})
 	})
+	// and with a built-in atom in front of every mention (a comparison early in the body must not hide what follows it)
+	func() {
+		c03BuiltinFirst = true
+		defer func() { c03BuiltinFirst = false }()
+		sp := spaces[0]
+		total := 1
+		for i := 0; i < sp.n*sp.n; i++ {
+			total *= len(sp.alphabet)
+		}
+		chunks := 4096
+		rt.ForRange(chunks, func(ci int) {
+			if r.Expired("C03 graph enumeration (built-in atom first)") {
+				return
+			}
+			for code := ci; code < total; code += chunks {
+				g := decodeGraph(code, sp.n, len(sp.alphabet), sp.alphabet)
+				if !canonicalGraph(sp.n, g) {
+					continue
+				}
+				c03One(r, sp.n, g, false)
+			}
+		})
+	}()
 	c03MapOrder(r)
-	r.Finish("the first space again with predicates that share one name and differ in arity only (p/1, p/2, p/3); every labelled dependency graph over 3 IDB predicates (labels absent/pos/neg/agg/temporal-pos/pos+neg[/temporal-neg/neg+pos]; a space with aggregation over a temporally annotated mention) and over 4 (reduced labels), up to renaming of predicates (only the lexicographically least relabelling is run), as analysis.Program and (a 1/61 slice of n=3) as source text through parse+Analyze; plus the map-iteration-order exploration of Stratify on all labelled 3-predicate graphs (see map_order_exploration); " +
+	r.Finish("the first space again with a built-in atom in front of every mention, and with predicates that share one name and differ in arity only (p/1, p/2, p/3); every labelled dependency graph over 3 IDB predicates (labels absent/pos/neg/agg/temporal-pos/pos+neg[/temporal-neg/neg+pos]; a space with aggregation over a temporally annotated mention) and over 4 (reduced labels), up to renaming of predicates (only the lexicographically least relabelling is run), as analysis.Program and (a 1/61 slice of n=3) as source text through parse+Analyze; plus the map-iteration-order exploration of Stratify on all labelled 3-predicate graphs (see map_order_exploration); " +
 		"non-trivial = graph has a cycle or a negative/aggregating/temporal edge; distinct by construction")
 }
 
